@@ -701,6 +701,9 @@ func (p *parser) parseInfixExpression() (*astNode, error) {
 		}
 		pop = func() (res *astNode) {
 			l := len(outputStack)
+			if l == 0 {
+				return nil
+			}
 			res, outputStack = outputStack[l-1], outputStack[:l-1]
 			return res
 		}
@@ -730,6 +733,9 @@ func (p *parser) parseInfixExpression() (*astNode, error) {
 				cnt := p.getInfixOpInfo(top.t.val).childCount
 				if cnt == -1 {
 					cnt = len(outputStack) - top.l
+				}
+				if cnt < 0 || cnt > len(outputStack) {
+					return p.invalidExprErr(top.t.pos)
 				}
 
 				children := make([]*astNode, cnt)
